@@ -8,7 +8,9 @@ exe = os.path.join(root, ".build", "cargo-ctskel", "release", "ctskel")
 src = open(os.path.join(here, "crates/x/src/lib.rs")).read()
 fns = re.findall(r"pub fn (\w+)\(", src)
 base = json.load(open(os.path.join(here, "..", "ops.json")))
-base["functions"] = [{"op": f, "listed": True, "file": "crates/x/src/lib.rs", "impl": None, "fn": f, "public": ["n"], "callee_as": [f]} for f in fns]
+# names ending in _m are methods of `K` (public field self.n unless the name says nopub)
+base["functions"] = [({"op": f, "listed": True, "file": "crates/x/src/lib.rs", "impl": "K", "fn": f, "public": [] if "nopub" in f else ["self.n"], "callee_as": []} if f.endswith("_m") else
+                      {"op": f, "listed": True, "file": "crates/x/src/lib.rs", "impl": None, "fn": f, "public": ["n"], "callee_as": [f]}) for f in fns]
 with tempfile.TemporaryDirectory() as d:
     json.dump(base, open(os.path.join(d, "ops.json"), "w"))
     p = subprocess.run([exe, "--repo", here, "--ops", os.path.join(d, "ops.json"), "--out-lean", os.path.join(d, "o.lean"), "--out-json", os.path.join(d, "o.json")],
@@ -16,8 +18,20 @@ with tempfile.TemporaryDirectory() as d:
     if p.returncode != 0: print(p.stdout); sys.exit(2)
     j = json.load(open(os.path.join(d, "o.json")))
 bad = 0
+def rejected(op, seen=()):
+    """local rejections plus those of every op reached through `call` nodes (what Ct.check sees)"""
+    o = j["ops"][op]; out = list(o["rejected_local"])
+    def calls(t):
+        for n in t:
+            if isinstance(n, dict):
+                if n.get("k") == "call" and n.get("op") not in seen: yield n["op"]
+                for v in n.values():
+                    if isinstance(v, list): yield from calls(v)
+    for c in calls(o["tree"]):
+        if c in j["ops"]: out += [f"via {c}: {r}" for r in rejected(c, seen + (op,))]
+    return out
 for op in fns:
-    rej = j["ops"][op]["rejected_local"]
+    rej = rejected(op)
     ok = (op.startswith("bad_") == bool(rej))
     if not ok: bad += 1
     print(f"{'ok  ' if ok else 'FAIL'} {op:20s} {'rejected' if rej else 'accepted'} {rej}")
